@@ -19,6 +19,7 @@ import re
 
 from pplv import facts as F
 from pplv import cgen
+from pplv import flow
 
 # documented mapping (ppl_c_header.h, enum ppl_enum_error_code) — the API contract
 HANDLER_CODE = {
@@ -504,6 +505,55 @@ def r20_9(ctx, ext):
     ctx.floor(rid, n, 900, "wrappers applying members to their first handle")
 
 
+def r20_11(ctx, fx):
+    rid = "R20.11"
+    ctx.rule(rid, "disarming clears the flag: a timeout object held in a global pointer P is created with `new W(.., F, ..)`, F being the global flag the library polls (abandon_expensive_computations); wherever P is deleted, F is set back to null on every path to the function's exit — unconditionally: an expired watcher leaves F pointing at the timeout exception, and if it stays set every later call through any handle returns PPL_TIMEOUT_EXCEPTION although the wrapped operation would succeed")
+    reg = {}
+    for f in fx.functions:
+        for a in f.walk():
+            if a["k"] != "assign":
+                continue
+            lhs, rhs = f.deref(a["c"][0]), f.deref(a["c"][1])
+            if lhs is None or lhs["k"] != "ref" or lhs.get("dk") != "global" or rhs is None:
+                continue
+            news = [x for x in f.walk(rhs) if x["k"] == "new"]
+            if not news:
+                continue
+            flags = sorted(set(x["n"] for x in f.walk(news[0]) if x["k"] == "ref" and x.get("dk") == "global"))
+            if len(flags) == 1:
+                reg[lhs["n"]] = flags[0]
+    ctx.require(rid, len(reg) >= 2, "registrations `P = new W(.., flag, ..)` of the timeout objects: found %d, expected 2" % len(reg))
+    n = 0
+    for f in fx.functions:
+        if not f.cfg:
+            continue
+        for d in f.walk():
+            if d["k"] != "delete" or not d.get("c"):
+                continue
+            t = f.deref(d["c"][0])
+            while t is not None and t["k"] in ("cast", "paren") and t.get("c"):
+                t = f.deref(t["c"][0])
+            if t is None or t["k"] != "ref" or t.get("n") not in reg:
+                continue
+            flag = reg[t["n"]]
+            n += 1
+            inst = "%s deletes %s (flag %s)" % (f.name, t["n"], flag)
+
+            def clears(x, flag=flag):
+                if x["k"] != "assign":
+                    return False
+                l, r = f.deref(x["c"][0]), f.deref(x["c"][1])
+                while r is not None and r["k"] in ("cast", "paren") and r.get("c"):
+                    r = f.deref(r["c"][0])
+                return l is not None and l["k"] == "ref" and l.get("n") == flag and r is not None and (r["k"] == "nullptr" or f.text(r).strip() in ("nullptr", "0", "NULL"))
+            p = flow.must_follow(f, d, clears, track_env=False)
+            if p is None:
+                ctx.ok(rid, inst, where(f, d))
+            else:
+                ctx.violation(rid, inst, where(f, d), "after the timeout object is deleted a path leaves %s() with %s still set (%s): once the watcher has fired, every later call returns the timeout error" % (f.name, flag, flow.render_path(f, p)))
+    ctx.floor(rid, n, 2, "deletions of registered timeout objects")
+
+
 def units(ctx):
     d, us = cgen.units(ctx.repo)
     for u in us:
@@ -535,3 +585,4 @@ def run(ctx):
     r20_8(ctx, ext)
     r20_9(ctx, ext)
     r20_10(ctx, ext)
+    r20_11(ctx, fx)
